@@ -558,18 +558,18 @@ impl State {
     }
 
     fn next_token(&mut self) -> Xresult1<Tok> {
-        if let Some(lex) = self.input.last_mut() {
+        // an exhausted input is dropped and the one below it continues: a loop, because
+        // any number of inputs can be at their end at the same moment
+        while let Some(lex) = self.input.last_mut() {
             let res = lex.next_nonws();
             self.last_token = Some(lex.last_substr());
             if let Ok(Tok::EndOfInput) = &res {
                 self.input.pop();
-                self.next_token()
             } else {
-            res
+                return res;
             }
-        } else {
-            Ok(Tok::EndOfInput)
         }
+        Ok(Tok::EndOfInput)
     }
 
     fn context_open(&mut self, mode: ContextMode) -> Xresult {
